@@ -172,6 +172,13 @@ func CheckC10(h *History, blk *BlockRecord) []Violation {
 			continue
 		}
 		h.Labels["c10-lp-altered-by-third-party"]++
+		// "at that moment" is the state the closer met, not the state before the block: what other transactions and
+		// other forced closes of the same block did to the pool before is not observable from outside. The position is
+		// judged only when all of that together is small against the pool (three thousandths of it).
+		if mv := h.c10Movement(blk, p.AmmPoolId, p.Id); mv > 0.003 {
+			h.Labels["c10-lp-not-judged(pool-moved-inside-the-block)"]++
+			continue
+		}
 		if feedInBlock {
 			h.Labels["c10-skipped-feed-in-block"]++
 			continue
@@ -390,7 +397,14 @@ func CheckC10(h *History, blk *BlockRecord) []Violation {
 						// pool snapshot (which already contains this open's own borrow), the first against the snapshot of the
 						// block the open ran in; for a position opened at the very edge they differ in the fourth digit, so
 						// the recomputed value is given 1 % of head-room, the stored one none
-						if mtp.MtpHealth.LTE(sf) || hh.LTE(sf.Mul(sdkmath.LegacyMustNewDecFromStr("0.99"))) {
+						// the recomputed measure is only meaningful for a position that is small against the pool: a large
+						// one moves, with its own borrow and custody, the very snapshot it is re-measured against
+						small := true
+						if r := reserveOf(&amm, mtp.CustodyAsset); r.IsPositive() && mtp.Custody.MulRaw(100).GT(r) {
+							small = false
+							h.Labels["c10-open-health-large-position(stored-measure-only)"]++
+						}
+						if mtp.MtpHealth.LTE(sf) || (small && hh.LTE(sf.Mul(sdkmath.LegacyMustNewDecFromStr("0.99")))) {
 							out = append(out, Violation{Sig: "C10/open-left-unhealthy-position", Detail: fmt.Sprintf("a successful perpetual open left MTP %d with health %s (stored at the open: %s) <= safety factor %s (height %d)", mtp.Id, hh, mtp.MtpHealth, sf, cur.Height)})
 						}
 					}
@@ -412,4 +426,88 @@ func CheckC10(h *History, blk *BlockRecord) []Violation {
 	}
 	_ = ammtypes.ModuleName
 	return out
+}
+
+// c10Movement: an upper estimate of how far other successful transactions and other forced closes of the block moved
+// amm pool id, as a fraction of the pool (1 = cannot be bounded). Queued swaps do not count: they run after every
+// transaction of the block.
+func (h *History) c10Movement(blk *BlockRecord, id uint64, exceptLP uint64) float64 {
+	prev := h.Prev
+	amm := prev.Pool(id)
+	if amm == nil || !amm.TotalShares.Amount.IsPositive() {
+		return 1
+	}
+	frac := func(a sdkmath.Int, of sdkmath.Int) float64 {
+		if !of.IsPositive() {
+			return 1
+		}
+		f, _ := a.ToLegacyDec().Quo(of.ToLegacyDec()).Float64()
+		return f
+	}
+	mv := 0.0
+	for _, tx := range blk.Txs {
+		if tx.Code != 0 {
+			continue
+		}
+		switch m := tx.Msg.(type) {
+		case *ammtypes.MsgJoinPool:
+			if m.PoolId == id {
+				for _, c := range m.MaxAmountsIn {
+					mv += frac(c.Amount, reserveOf(amm, c.Denom))
+				}
+			}
+		case *ammtypes.MsgExitPool:
+			if m.PoolId == id {
+				mv += frac(m.ShareAmountIn, amm.TotalShares.Amount)
+			}
+		case *perptypes.MsgOpen:
+			if m.PoolId == id {
+				lev := m.Leverage
+				if lev.LT(sdkmath.LegacyOneDec()) {
+					lev = sdkmath.LegacyOneDec()
+				}
+				mv += frac(lev.MulInt(m.Collateral.Amount).TruncateInt(), reserveOf(amm, m.Collateral.Denom))
+			}
+		case *lptypes.MsgOpen:
+			if m.AmmPoolId == id {
+				lev := m.Leverage
+				if lev.LT(sdkmath.LegacyOneDec()) {
+					lev = sdkmath.LegacyOneDec()
+				}
+				mv += frac(lev.MulInt(m.CollateralAmount).TruncateInt(), reserveOf(amm, m.CollateralAsset))
+			}
+		case *perptypes.MsgClose, *lptypes.MsgClose:
+			return 1
+		default:
+			if strings.Contains(tx.MsgType, ".tradeshield.MsgExecuteOrders") {
+				return 1
+			}
+		}
+	}
+	curLP := map[uint64]sdkmath.Int{}
+	for _, p := range h.Cur.LPPositions {
+		curLP[p.Id] = p.LeveragedLpAmount
+	}
+	for _, p := range prev.LPPositions {
+		if p.AmmPoolId != id || p.Id == exceptLP {
+			continue
+		}
+		now, still := curLP[p.Id]
+		if !still {
+			now = sdkmath.ZeroInt()
+		}
+		if now.LT(p.LeveragedLpAmount) {
+			mv += frac(p.LeveragedLpAmount.Sub(now), amm.TotalShares.Amount)
+		}
+	}
+	curMTP := map[uint64]bool{}
+	for _, m := range h.Cur.MTPs {
+		curMTP[m.Id] = true
+	}
+	for _, m := range prev.MTPs {
+		if m.AmmPoolId == id && !curMTP[m.Id] {
+			mv += frac(m.Custody, reserveOf(amm, m.CustodyAsset))
+		}
+	}
+	return mv
 }
